@@ -280,6 +280,7 @@ fn main() {
             "random-big" => mode_random_big(&mut j),
             "spy" => mode_spy(&mut j),
             "delegate" => mode_delegate(&mut j),
+            "delegate-faults" => mode_delegate_faults(&mut j),
             "one" => mode_one(&mut j),
             m => {
                 eprintln!("unknown mode {}", m);
@@ -716,6 +717,8 @@ struct Counting<S: MetricSink> {
     /// "the queue's thread was descheduled between taking the metric and handing it over")
     hold: Arc<std::sync::atomic::AtomicBool>,
     entered: Arc<AtomicU64>,
+    /// number of emits the wrapped (buffered) sink answered with Ok
+    inner_ok: Arc<AtomicU64>,
 }
 
 impl<S: MetricSink> MetricSink for Counting<S> {
@@ -733,10 +736,181 @@ impl<S: MetricSink> MetricSink for Counting<S> {
         while self.hold.load(Ordering::SeqCst) && t0.elapsed().as_secs() < 90 {
             std::thread::yield_now();
         }
-        self.inner.emit(m)
+        let r = self.inner.emit(m);
+        if r.is_ok() {
+            self.inner_ok.fetch_add(1, Ordering::SeqCst);
+        }
+        r
     }
     fn flush(&self) -> io::Result<()> {
         self.inner.flush()
+    }
+}
+
+/// W5 under write failures: a buffered spy sink whose channel holds 1-2 datagrams (a full channel refuses the write) behind
+/// a client, or behind a queuing sink behind a client. Random emit / flush / drain histories; the one rule judged here
+/// is C06's unconditional one - whatever failed before: when a flush through the client returns Ok, every metric the
+/// buffered sink accepted so far is in the datagram stream exactly once; likewise after the drop (whose own write is
+/// given room).
+fn mode_delegate_faults(j: &mut Judge) {
+    use cadence::prelude::*;
+    use cadence::Metric;
+    let seed = j.args.u64("seed", 1);
+    let shard = j.args.u64("shard", 0);
+    let cases = j.args.u64("cases", 100);
+    let only = j.args.get("case-seed").map(|s| s.parse::<u64>().unwrap());
+    for i in 0..cases {
+        let cs = only.unwrap_or_else(|| mix(&[seed, 0xDE1F, shard, i]));
+        let mut r = Rng::new(cs);
+        let cap = r.range(24, 120) as usize;
+        let chan = r.range(1, 2) as usize;
+        let (rx, spy) = BufferedSpyMetricSink::with_capacity(Some(chan), Some(cap));
+        let done = Arc::new(AtomicU64::new(0));
+        let inner_ok = Arc::new(AtomicU64::new(0));
+        let counting = Counting { inner: spy, done: done.clone(), hold: Arc::new(std::sync::atomic::AtomicBool::new(false)), entered: Arc::new(AtomicU64::new(0)), inner_ok: inner_ok.clone() };
+        let qvariant = r.below(5);
+        let client = match qvariant {
+            0 => StatsdClient::from_sink("", counting),
+            1 => StatsdClient::from_sink("", QueuingMetricSink::from(counting)),
+            2 => StatsdClient::from_sink("", QueuingMetricSink::with_capacity(counting, 4096)),
+            3 => StatsdClient::from_sink("", QueuingMetricSink::builder().with_error_handler(|_e| {}).build(counting)),
+            _ => StatsdClient::builder("", counting).with_error_handler(|_e| {}).build(),
+        };
+        let label = ["W5f-client", "W5f-queue", "W5f-queue(cap)", "W5f-queue(handler)", "W5f-client(builder)"][qvariant as usize];
+        let mut accepted: Vec<Vec<u8>> = Vec::new();
+        let mut stream: Vec<u8> = Vec::new();
+        let mut sent = 0u64;
+        let mut failures = 0u64;
+        let mut hist: Vec<String> = Vec::new();
+        let mut verdict: Option<(&'static str, String)> = None;
+        j.rep.eval();
+        let count_in = |stream: &[u8], line: &[u8]| stream.windows(line.len()).filter(|w| *w == line).count();
+        let nops = r.range(6, 40) as usize;
+        for k in 0..nops {
+            match r.below(10) {
+                0 | 1 => {
+                    let mut n = 0;
+                    while let Ok(b) = rx.try_recv() {
+                        stream.extend_from_slice(&b);
+                        n += 1;
+                    }
+                    hist.push(format!("drain({})", n));
+                }
+                2 | 3 => {
+                    let res = panics::guard(|| client.flush());
+                    match res {
+                        Ok(Ok(())) => {
+                            while let Ok(b) = rx.try_recv() {
+                                stream.extend_from_slice(&b);
+                            }
+                            hist.push("flush=Ok".into());
+                            j.rep.obs("ok_flushes_after_earlier_failures", (failures > 0) as u64);
+                            if let Some(l) = accepted.iter().find(|l| count_in(&stream, l) != 1) {
+                                verdict = Some(("flush-left-data", format!("flush through the client returned Ok but the accepted metric {:?} is in the datagram stream {} time(s)", clip_bytes(l, 40), count_in(&stream, l))));
+                                break;
+                            }
+                        }
+                        Ok(Err(e)) => {
+                            failures += 1;
+                            hist.push(format!("flush=Err({})", e));
+                        }
+                        Err(p) => {
+                            hist.push(format!("flush PANIC {}", p));
+                            break;
+                        }
+                    }
+                }
+                _ => {
+                    let key = format!("k{:04}x", k);
+                    let before_ok = inner_ok.load(Ordering::SeqCst);
+                    let res = panics::guard(|| client.gauge(&key, r.below(1000)));
+                    match res {
+                        Ok(Ok(m)) => {
+                            sent += 1;
+                            let t0 = std::time::Instant::now();
+                            while done.load(Ordering::SeqCst) < sent && t0.elapsed().as_secs() < 60 {
+                                std::thread::yield_now();
+                            }
+                            if done.load(Ordering::SeqCst) < sent {
+                                j.rep.inconclusive("delegate-faults: the queuing sink did not hand a metric over within 60 s");
+                                return;
+                            }
+                            if inner_ok.load(Ordering::SeqCst) > before_ok {
+                                let mut l = m.as_metric_str().as_bytes().to_vec();
+                                l.push(b'\n');
+                                accepted.push(l);
+                                hist.push(format!("emit({})=Ok", key));
+                            } else {
+                                failures += 1;
+                                hist.push(format!("emit({})=Ok at the client, refused by the buffered sink", key));
+                            }
+                        }
+                        Ok(Err(e)) => {
+                            // direct client: the buffered sink refused (its flush to make room failed); through a queue
+                            // the wrapped sink was reached all the same - count that too
+                            if qvariant >= 1 && qvariant <= 3 {
+                                hist.push(format!("emit({})=Err({}) from the queue", key, e));
+                            } else {
+                                sent += 1;
+                                failures += 1;
+                                hist.push(format!("emit({})=Err({})", key, e));
+                            }
+                        }
+                        Err(p) => {
+                            hist.push(format!("emit PANIC {}", p));
+                            break;
+                        }
+                    }
+                }
+            }
+        }
+        if verdict.is_none() {
+            // give the drop's own write room, then drop and collect everything
+            while let Ok(b) = rx.try_recv() {
+                stream.extend_from_slice(&b);
+            }
+            drop(client);
+            let t0 = std::time::Instant::now();
+            loop {
+                match rx.recv_timeout(std::time::Duration::from_millis(200)) {
+                    Ok(b) => stream.extend_from_slice(&b),
+                    Err(crossbeam_channel::RecvTimeoutError::Disconnected) => break,
+                    Err(crossbeam_channel::RecvTimeoutError::Timeout) => {
+                        if t0.elapsed().as_secs() > 60 {
+                            j.rep.inconclusive("delegate-faults: wrapped sink not released within 60 s after the client was dropped");
+                            return;
+                        }
+                    }
+                }
+            }
+            hist.push("drop".into());
+            if let Some(l) = accepted.iter().find(|l| count_in(&stream, l) != 1) {
+                verdict = Some(("lost-at-drop", format!("the sink was dropped (with room for its last write) but the accepted metric {:?} is in the datagram stream {} time(s)", clip_bytes(l, 40), count_in(&stream, l))));
+            }
+        }
+        j.rep.obs("delegate_fault_histories", 1);
+        j.rep.obs("write_failures_in_delegate_histories", failures);
+        j.rep.obs("metrics_accepted", accepted.len() as u64);
+        j.rep.distinct(&format!("{}|{}|{}|{}", label, chan, failures.min(6), accepted.len().min(12)));
+        if let Some((class, detail)) = verdict {
+            let v = FrameViolation { rule: "F2", class, detail: detail.clone(), step: hist.len(), after_fault: failures > 0 };
+            if attribute(&v).contains(&j.prop.as_str()) {
+                let rargs = j.args.to_vec_with(&[("case-seed", cs.to_string()), ("cases", "1".into())]);
+                j.rep.violation(Violation {
+                    property: j.prop.clone(),
+                    rule: "F2".into(),
+                    class: class.into(),
+                    detail: format!("[{} cap={} channel={}] {}", label, cap, chan, detail),
+                    replay_args: rargs,
+                    trace: jobj! {"embodiment" => label, "capacity" => cap, "channel_slots" => chan, "history" => Json::Arr(hist.iter().map(|h| Json::Str(h.clone())).collect())},
+                });
+            } else {
+                j.rep.obs("other_property_rule_hits", 1);
+            }
+        }
+        if only.is_some() || j.rep.violation_count >= 12 {
+            break;
+        }
     }
 }
 
@@ -757,7 +931,7 @@ fn mode_delegate(j: &mut Judge) {
         let done = Arc::new(AtomicU64::new(0));
         let hold = Arc::new(std::sync::atomic::AtomicBool::new(false));
         let entered = Arc::new(AtomicU64::new(0));
-        let counting = Counting { inner: spy, done: done.clone(), hold: hold.clone(), entered: entered.clone() };
+        let counting = Counting { inner: spy, done: done.clone(), hold: hold.clone(), entered: entered.clone(), inner_ok: Arc::new(AtomicU64::new(0)) };
         // every way of building the queuing wrapper must delegate flush (and must not lose it behind an error handler)
         let qvariant = r.below(4);
         let client = if through_queue {
